@@ -4,13 +4,13 @@
    correspondence check (Planar/Model.v), and about the shortcut branches of an executable
    model of the procedure of graph/planar.go (Planar/DmpModel.v).
 
+   Termination and panic-freedom of that model (it returns RT or RF for every graph value, never
+   RPanic or RFuel) are proved in Props/C11_total.v.
    NOT proved, explored by the harness only: that the Demoucron-Malgrange-Pertuiset procedure
-   (code or model) returns the specification's answer, that it terminates (the model runs on
-   fuel and reports OutOfFuel as a distinct observation), and that its two panic branches are
-   unreachable.  Also not proved: that the minor characterisation coincides with
-   embeddability in the plane (Wagner/Kuratowski), and the Euler bound m <= 3n-6 for graphs
-   without K5 / K3,3 minor (so the `m > 3n-6 => false` shortcut is tied to the code by
-   correspondence and to the specification by exploration only). *)
+   (code or model) returns the specification's answer.  Also not proved: that the minor
+   characterisation coincides with embeddability in the plane (Wagner/Kuratowski), and the Euler
+   bound m <= 3n-6 for graphs without K5 / K3,3 minor (so the `m > 3n-6 => false` shortcut is
+   tied to the code by correspondence and to the specification by exploration only). *)
 From Coq Require Import List Arith Bool Lia.
 From Mamba Require Import Planar.Model Planar.Spec Planar.SpecLemmas Planar.Invariance
   Planar.Constructors Planar.ExecProofs Planar.CertProofs Planar.MinorClosed Planar.DmpModel Planar.DmpProofs.
@@ -158,10 +158,10 @@ Proof.
 Qed.
 
 (* ---- the executable model of IsPlanar (Planar/DmpModel.v, tied to graph/planar.go by
-   correspondence on t / f / panic for every graph of every case).  PARTIAL: only the shortcut
-   branches and the loop over the biconnected components are covered; missing: that the
-   embedding loop [dmp] returns RT exactly on planar blocks, and that it never returns RPanic
-   (the two panic statements and the index errors) or RFuel (non-termination). *)
+   correspondence on t / f / panic for every graph of every case).  PARTIAL: the shortcut
+   branches and the loop over the biconnected components are covered here, totality (never
+   RPanic, never RFuel) in Props/C11_total.v; missing: that the embedding loop [dmp] returns RT
+   exactly on planar blocks. *)
 Theorem C11_model_shortcuts_partial : forall g,
   (gn g < 5 -> is_planar_model g = RT /\ planar g) /\
   (5 <= gn g -> forall b, In b (blocks (blk_of g)) -> 5 <= length b ->
